@@ -720,6 +720,23 @@ func (w *c16World) reconciler() *revision.Reconciler {
 	return w.rec
 }
 
+// c16DesiredState is spec.desiredState of the revision at a reconcile step.
+func c16DesiredState(s *c16Step) string {
+	if s.DS != nil {
+		return *s.DS
+	}
+	if s.Control {
+		return string(pkgv1.PackageRevisionActive)
+	}
+	return string(pkgv1.PackageRevisionInactive)
+}
+
+// c16Deactivating: the reconciler is expected to deactivate the revision at this step
+// (ReleaseObjects, shortcut): its desired state is exactly Inactive.
+func c16Deactivating(s *c16Step) bool {
+	return s.Op == "reconcile" && c16DesiredState(s) == string(pkgv1.PackageRevisionInactive)
+}
+
 // c16Trace is what the instrumented client saw during one step.
 type c16Trace struct {
 	calls   []c16Call
@@ -803,7 +820,10 @@ func (w *c16World) runStep(s *c16Step) (c16StepObs, c16Trace) {
 		for _, r := range tr.listed {
 			cl.refKeys = append(cl.refKeys, r.Key)
 		}
-		if !s.Control && len(tr.listed) > 0 {
+		if s.DS != nil {
+			s.Control = *s.DS == string(pkgv1.PackageRevisionActive) // what "active" means: exactly that string
+		}
+		if c16Deactivating(s) && len(tr.listed) > 0 {
 			cl.mode = "rel"
 		}
 		// environment: the package manager sets labels, owner references and the desired state
@@ -811,11 +831,7 @@ func (w *c16World) runStep(s *c16Step) (c16StepObs, c16Trace) {
 			p := c16ParentObj(s.Parent)
 			u.SetLabels(p.GetLabels())
 			u.SetOwnerReferences(p.GetOwnerReferences())
-			ds := string(pkgv1.PackageRevisionInactive)
-			if s.Control {
-				ds = string(pkgv1.PackageRevisionActive)
-			}
-			_ = unstructured.SetNestedField(u.Object, ds, "spec", "desiredState")
+			_ = unstructured.SetNestedField(u.Object, c16DesiredState(s), "spec", "desiredState")
 		})
 		st.Log = nil
 		w.cache.content[name] = c16PackageStream(s.Objs)
@@ -1025,7 +1041,7 @@ func c16Run(scn *c16Scn) (c16Obs, []Mon) {
 		}
 		mons = append(mons, c16Monitor(s, before, listed, so, tr)...)
 		c16NoteEvents(s, so, tr)
-		releasing := s.Op == "release" || (s.Op == "reconcile" && !s.Control && len(listed) > 0)
+		releasing := s.Op == "release" || (c16Deactivating(s) && len(listed) > 0)
 		// an object the third party deleted or replaced is the third party's from now on
 		for _, a := range applied {
 			delete(established, a.Key)
@@ -1064,6 +1080,9 @@ func c16Run(scn *c16Scn) (c16Obs, []Mon) {
 			switch {
 			case s.Control:
 				delete(released, u)
+			case !c16Deactivating(s):
+				// neither activated nor deactivated (desired state "" / garbage): nothing is released
+				// beyond what Establish(control=false) touches; the bookkeeping stays as it is
 			case so.Result == "ok":
 				keys := map[string]bool{}
 				hidden := map[int]bool{}
@@ -1345,7 +1364,7 @@ func c16Monitor(s *c16Step, before0 []c16Obj, refsBefore []c16XRef, so c16StepOb
 		}
 	}
 	// which of ReleaseObjects / Establish is expected to touch package objects?
-	releasing := s.Op == "release" || (s.Op == "reconcile" && !s.Control && len(refsBefore) > 0)
+	releasing := s.Op == "release" || (c16Deactivating(s) && len(refsBefore) > 0)
 	if !s.Control && s.Op != "release" {
 		// an inactive revision never issues a (non-dry-run) create, whoever interferes
 		for _, c := range calls {
@@ -1784,6 +1803,8 @@ func c16GenTP(r *Rng, s *c16Step, store []c16Obj, me int) []c16Act {
 	return acts
 }
 
+func c16Str(s string) *string { return &s }
+
 func c16StateNames(m map[string]bool) string {
 	var ks []string
 	for k := range m {
@@ -2057,7 +2078,9 @@ func c16GenHistory(r *Rng) (c16Scn, string) {
 		desired[20] = true
 	}
 	n := r.Range(3, 9)
-	faulty, racing, rollback, interf, lag := false, false, false, false, false
+	faulty, racing, rollback, interf, lag, states := false, false, false, false, false, false
+	manual := r.Chance(1, 3) // revisionActivationPolicy: Manual
+	activated := map[int]bool{10: true, 20: true}
 	for len(scn.Steps) < n {
 		switch r.Intn(5) {
 		case 0: // upgrade or rollback: the package manager flips the desired states
@@ -2077,6 +2100,20 @@ func c16GenHistory(r *Rng) (c16Scn, string) {
 		u := Pick(r, revs)
 		s := c16NewStep("reconcile", parentOf[u])
 		s.Control = desired[u]
+		if desired[u] {
+			activated[u] = true
+		}
+		// spec.desiredState is a free-form string: a revision that was never activated under the
+		// Manual activation policy has NONE; a user may have typed anything
+		switch {
+		case !desired[u] && manual && !activated[u]:
+			s.DS = c16Str("")
+			states = true
+		case r.Chance(1, 12):
+			s.DS = c16Str(Pick(r, []string{"", "active", "ACTIVE", "inactive", "Inactive ", " Active", "Activ", "Paused", "true"}))
+			s.Control = false
+			states = true
+		}
 		s.Objs = append(s.Objs, objsOf[u]...)
 		s.Conc = Pick(r, []int{1, 1, 2})
 		if r.Chance(1, 6) {
@@ -2144,6 +2181,9 @@ func c16GenHistory(r *Rng) (c16Scn, string) {
 	}
 	if lag {
 		cls += "+lag"
+	}
+	if states {
+		cls += "+states"
 	}
 	_ = other
 	return scn, cls
@@ -2219,6 +2259,15 @@ func c16GenDeactivate(r *Rng) (c16Scn, string) {
 		scn.Steps = append(scn.Steps, step(10, true)) // a clean retry before the upgrade
 		healed = true
 	}
+	manual := ""
+	if r.Chance(1, 3) {
+		// Manual activation policy: revision 11 exists but was never activated (no desired state)
+		// and is reconciled while revision 10 is still the active one
+		nv := step(11, false)
+		nv.DS = c16Str(Pick(r, []string{"", "", "", "active", "Inactive "}))
+		scn.Steps = append(scn.Steps, nv)
+		manual = "/manual"
+	}
 	// the package manager flips the desired states; the reconciles arrive in either order
 	if r.Bool() {
 		scn.Steps = append(scn.Steps, step(11, true))
@@ -2256,7 +2305,7 @@ func c16GenDeactivate(r *Rng) (c16Scn, string) {
 	if healed {
 		cls += "/healed"
 	}
-	return scn, cls + world
+	return scn, cls + world + manual
 }
 
 func c16Gen(r *Rng) (c16Scn, string) {
